@@ -25,6 +25,7 @@ import (
 type Out struct {
 	Violations []*drv.Violation `json:"violations,omitempty"`
 	Foreign    *drv.Violation   `json:"foreign,omitempty"` // failure owned by another property; run stopped there
+	Tainted    bool             `json:"tainted,omitempty"` // goroutines of the code under test are still alive: the process must not execute another run
 	Evals      int              `json:"evals"`             // evaluations inside the run (cuts, fault positions, ...) >= 1
 	NonTrivial bool             `json:"nontrivial"`
 	Probes     map[string]int   `json:"probes,omitempty"`
@@ -136,6 +137,10 @@ type workerMsg struct {
 	Plan   *drv.Plan `json:"plan,omitempty"` // present when the run has violations
 	Hang   bool      `json:"hang,omitempty"`
 	Done   bool      `json:"done,omitempty"`
+	// Retire: the run left goroutines of the code under test behind (a hang
+	// inside the simulation); its result has been sent, the worker ends and
+	// the coordinator starts a fresh one at the next run.
+	Retire bool `json:"retire,omitempty"`
 }
 
 // Worker runs the runs start, start+stride, ... (count of them, or until the
@@ -172,6 +177,10 @@ func Worker(c *Check, seed uint64, tier string, start, stride, count int, deadli
 				m.Plan = p
 			}
 			send(m)
+			if out.Tainted {
+				send(workerMsg{Run: i, Retire: true})
+				os.Exit(0)
+			}
 		case <-time.After(c.RunTimeout):
 			send(workerMsg{Run: i, Hang: true, Plan: p})
 			os.Exit(3)
@@ -392,6 +401,7 @@ func Coordinate(c *Check, tier string, self string) int {
 			sc.Buffer(make([]byte, 1<<20), 1<<28)
 			inflight := -1
 			finished := false
+			retiredAt := -1
 			doneRuns := 0
 			var hangPlan *drv.Plan
 			for sc.Scan() {
@@ -404,6 +414,8 @@ func Coordinate(c *Check, tier string, self string) int {
 					finished = true
 				case m.Start:
 					inflight = m.Run
+				case m.Retire:
+					retiredAt = m.Run
 				case m.Hang:
 					hangPlan = m.Plan
 				case m.Out != nil:
@@ -456,6 +468,17 @@ func Coordinate(c *Check, tier string, self string) int {
 			err := cmd.Wait()
 			if finished && err == nil {
 				return
+			}
+			if retiredAt >= 0 && err == nil {
+				// a fresh process continues after the run that left goroutines behind
+				start = retiredAt + nw
+				if count > 0 {
+					count -= doneRuns
+					if count <= 0 {
+						return
+					}
+				}
+				continue
 			}
 			// The worker died or hung in run `inflight`.
 			var crashed *drv.Plan
